@@ -180,14 +180,38 @@ Lemma classify_other c X : c <> 60 -> classify (c :: X) = Some (QAC_OTYPE_OPTION
 Proof. intros H. unfold classify. destruct c as [|p]; [reflexivity|]. do 6 (destruct p as [p|p|]; try reflexivity). congruence. Qed.
 Lemma match47 {B} (c : N) (X : list N) (a : list N -> B) (b : B) : c <> 47 -> match c :: X with 47 :: sp' => a sp' | _ => b end = b.
 Proof. intros H. destruct c as [|p]; [reflexivity|]. do 6 (destruct p as [p|p|]; try reflexivity). congruence. Qed.
-Lemma classify_open sp : hdn (sp ++ [62]) <> 47 -> classify (60 :: sp ++ [62]) = Some (QAC_OTYPE_SECTIONOPEN, sp).
-Proof. intros H. unfold classify. change (60 :: sp ++ [62]) with ((60 :: sp) ++ [62]) at 1. rewrite last_last. change (negb (62 =? 62)) with false. cbv iota.
+(* the text between the brackets loses its trailing blanks (qstrtrimtail after the bracket is removed); rendered tags have none *)
+Lemma trim_tail_lastnb X : X <> [] -> isblank (last X 0) = false -> trim_tail X = X.
+Proof. intros N H. destruct (@exists_last _ X N) as (m & l & ->). rewrite last_last in H. rewrite (trim_tail_mid m l [] H). reflexivity. Qed.
+Lemma last_app_nn {A} (x y : list A) d : y <> [] -> last (x ++ y) d = last y d.
+Proof. intros N. induction x as [|a x IH]; [reflexivity|]. cbn [app]. rewrite <- IH.
+  destruct (x ++ y) eqn:E; [exfalso; destruct x; cbn in E; [congruence|discriminate]|reflexivity]. Qed.
+Lemma bare_last_nb t : bare_ok t = true -> forallb (fun c => negb (c =? 13) && negb (c =? 10)) t = true -> t <> [] /\ isblank (last t 0) = false.
+Proof. intros Hb Hd. destruct (bare_chars _ Hb Hd) as (Nb & _ & Tn & _). split; [exact Tn|].
+  destruct (@exists_last _ t Tn) as (m & l & ->). rewrite last_last. rewrite forallb_app in Nb. apply andb_true_iff in Nb as [_ Nl].
+  cbn [forallb] in Nl. rewrite andb_true_r in Nl. unfold nbc in Nl. apply negb_true_iff in Nl. exact Nl. Qed.
+Lemma body_last_nb w : word_ok w = true -> dword_ok w = true -> body w <> [] /\ isblank (last (body w) 0) = false.
+Proof. intros Ww Dw. unfold body. unfold word_ok in Ww. apply andb_true_iff in Ww as [_ Ws]. unfold dword_ok in Dw. destruct (w_style w) as [|q all].
+  - exact (bare_last_nb _ Ws Dw).
+  - apply andb_true_iff in Ws as [Hq _]. destruct (quote_facts q Hq) as (Qb & _). split; [discriminate|].
+    change (q :: esc q all (w_text w) ++ [q]) with ((q :: esc q all (w_text w)) ++ [q]). rewrite last_last. exact Qb. Qed.
+Lemma render_words_last ws : ws <> [] -> forallb word_ok ws = true -> forallb dword_ok ws = true ->
+  render_words ws <> [] /\ isblank (last (render_words ws) 0) = false.
+Proof. induction ws as [|w r IH]; [congruence|]. intros _ Hw Hd. cbn [forallb] in Hw, Hd. apply andb_true_iff in Hw as [Ww Wr]. apply andb_true_iff in Hd as [Dw Dr].
+  unfold render_words. cbn [flat_map]. fold (render_words r). rewrite render_word_body.
+  destruct (body_last_nb w Ww Dw) as [Bn Bl].
+  destruct r as [|w2 r2].
+  - cbn [render_words flat_map]. rewrite app_nil_r. split; [intros E; apply app_eq_nil in E as [_ E]; exact (Bn E)|]. rewrite (last_app_nn _ _ _ Bn). exact Bl.
+  - destruct (IH ltac:(discriminate) Wr Dr) as [Rn Rl]. split; [intros E; apply app_eq_nil in E as [_ E]; exact (Rn E)|].
+    rewrite (last_app_nn _ _ _ Rn). exact Rl. Qed.
+Lemma classify_open sp : hdn (sp ++ [62]) <> 47 -> trim_tail sp = sp -> classify (60 :: sp ++ [62]) = Some (QAC_OTYPE_SECTIONOPEN, sp).
+Proof. intros H HT. unfold classify. change (60 :: sp ++ [62]) with ((60 :: sp) ++ [62]) at 1. rewrite last_last. change (negb (62 =? 62)) with false. cbv iota.
   destruct (sp ++ [62]) as [|c X] eqn:E; [destruct sp; discriminate|]. cbn [hdn] in H.
-  assert (R : removelast (c :: X) = sp) by (rewrite <- E; apply removelast_last). revert R. generalize (removelast (c :: X)). intros rl ->.
+  assert (R : removelast (c :: X) = sp) by (rewrite <- E; apply removelast_last). revert R. generalize (removelast (c :: X)). intros rl ->. rewrite HT.
   destruct c as [|p]; [reflexivity|]. do 6 (destruct p as [p|p|]; try reflexivity). congruence. Qed.
-Lemma classify_close cname : classify (60 :: 47 :: cname ++ [62]) = Some (QAC_OTYPE_SECTIONCLOSE, cname).
+Lemma classify_close cname : trim_tail cname = cname -> classify (60 :: 47 :: cname ++ [62]) = Some (QAC_OTYPE_SECTIONCLOSE, cname).
 Proof. unfold classify. change (60 :: 47 :: cname ++ [62]) with ((60 :: 47 :: cname) ++ [62]) at 1. rewrite last_last. change (negb (62 =? 62)) with false. cbv iota.
-  rewrite removelast_last. reflexivity. Qed.
+  rewrite removelast_last. intros ->. reflexivity. Qed.
 
 Section Lines.
 Variable cb : bool -> cbd -> list cbd -> option (list N).
@@ -246,7 +270,9 @@ Proof. intros Hi Ht Hw Hd Hf. destruct ws as [|w r] eqn:Ews; [discriminate|]. re
       * cbn [negb orb] in Hf. apply negb_true_iff, N.eqb_neq in Hf. destruct (bare_chars _ Ws Dw) as (_ & _ & Tn & _).
         destruct (w_text w) as [|c t]; [congruence|]. exact Hf.
       * apply andb_true_iff in Ws as [Hq _]. destruct (quote_facts q Hq) as (_ & _ & _ & _ & _ & Q47). cbn [app hdn]. intros E. rewrite E in Q47. discriminate.
-    + cbn [app hdn]. cbn [forallb] in Hg. apply andb_true_iff in Hg as [Hg _]. unfold wsc in Hg. rewrite orb_true_iff, !N.eqb_eq in Hg. destruct Hg as [-> | ->]; discriminate. Qed.
+    + cbn [app hdn]. cbn [forallb] in Hg. apply andb_true_iff in Hg as [Hg _]. unfold wsc in Hg. rewrite orb_true_iff, !N.eqb_eq in Hg. destruct Hg as [-> | ->]; discriminate.
+  - assert (NE : ws <> []) by (rewrite Ews; discriminate).
+    destruct (render_words_last ws NE (words_ok_all _ _ Hw) Hd) as [Rn Rl]. exact (trim_tail_lastnb _ Rn Rl). Qed.
 
 Lemma close_line cind cname ctr sid parents : ws3 cind = true -> ws3 ctr = true -> bare_ok cname = true ->
   forallb (fun c => negb (c =? 13) && negb (c =? 10)) cname = true ->
@@ -255,7 +281,8 @@ Proof. intros Hi Ht Hb Hd.
   assert (TX : trim (cind ++ 60 :: 47 :: cname ++ 62 :: ctr ++ [10]) = 60 :: 47 :: cname ++ [62]).
   { replace (cind ++ 60 :: 47 :: cname ++ 62 :: ctr ++ [10]) with (cind ++ (60 :: 47 :: cname ++ [62]) ++ ctr ++ [10]) by (cbn [app]; rewrite <- app_assoc; reflexivity).
     apply trim_line; auto. apply tfb_of; [reflexivity|]. change (60 :: 47 :: cname ++ [62]) with ((60 :: 47 :: cname) ++ [62]). rewrite last_last. reflexivity. }
-  rewrite TX. unfold AconfModel.line_step. cbn [hd0]. change ((60 =? 0) || (60 =? 35)) with false. cbv iota. rewrite classify_close.
+  rewrite TX. unfold AconfModel.line_step. cbn [hd0]. change ((60 =? 0) || (60 =? 35)) with false. cbv iota.
+  rewrite classify_close by (destruct (bare_last_nb _ Hb Hd) as [Cn Cl]; exact (trim_tail_lastnb _ Cn Cl)).
   assert (NN : [{| w_gap := []; w_style := Bare; w_text := cname |}] <> []) by discriminate.
   assert (W : words_ok false [{| w_gap := []; w_style := Bare; w_text := cname |}] = true).
   { unfold words_ok, word_ok. cbn [w_gap w_style w_text forallb]. rewrite Hb. reflexivity. }
